@@ -238,6 +238,11 @@ def signatures(wj):
                 sigs.append("SigSubducting ([%s], [%s])" % ("; ".join(_nat(len(r)) for r in ridges), "; ".join(_nat(k) for k in rows)))
 
     kinds = ("temperature models", "composition models", "grains models", "velocity models")
+    ver = wj.get("version")
+    if not isinstance(ver, str):
+        raise NotExtractable("version")
+    prog = ".".join(open(os.path.join(common.REPO, "VERSION")).read().strip().split("-")[0].split(".")[:2])
+    sigs.append("SigVersion ([%s], [%s])" % ("; ".join("n_of_int %d" % b for b in ver.encode("utf-8")), "; ".join("n_of_int %d" % b for b in prog.encode("utf-8"))))
     for f in wj.get("features", []):
         if not isinstance(f, dict):
             raise NotExtractable("feature")
@@ -534,7 +539,7 @@ def run(chk):
     # the model's verdict on the lengths (Validate.doc_ok) against the constructor's, on the unchanged and the length-damaged documents
     body, who = "", []
     for di, (p, stream, desc, exp, wi) in enumerate(docs):
-        if stream not in ("base", "lengths") or di not in built:
+        if (stream not in ("base", "lengths") and not desc.startswith("version ")) or di not in built:
             continue
         try:
             sg = signatures(json.load(open(p)))
